@@ -21,7 +21,7 @@ func init() {
 				"Set's error. (C18.once) YieldBlock executes the block's list exactly once on every normal path, brackets it with a context save/restore when a context is given, and reaches an error " +
 				"panic for an unknown block. (C18.top) LetGlobal walks to the outermost scope of the chain; Let/LetGlobal must not store into a nil map (the bottom scope's map is the " +
 				"caller's VarMap, which may be nil). (C18.args) ParseInto iterates 0 ≤ i < NumOfArguments() through Get(i) and fails when fewer pointers than arguments are supplied; " +
-				"RequireNumOfArguments compares NumOfArguments() with both bounds; Get/IsSet/NumOfArguments agree with evaluateArgs on positions (C14.shift, C14.slot, re-checked here). (C18.top, continued) LetGlobal's store happens where the scope's parent is known to be nil, on every path. (C18.once, continued) YieldBlock runs the block without the given context only where that context is nil. (C18.args per-argument) see C14.count: ParseInto carries nothing from one argument position to the next.",
+				"RequireNumOfArguments compares NumOfArguments() with both bounds; Get/IsSet/NumOfArguments agree with evaluateArgs on positions (C14.shift, C14.slot, re-checked here). (C18.top, continued) LetGlobal's store happens where the scope's parent is known to be nil, on every path. (C18.once, continued) YieldBlock runs the block without the given context only where that context is nil. (C18.args per-argument) see C14.count: ParseInto carries nothing from one argument position to the next. (C18.once content-inherited) on the paths of executeYieldBlock on which no content part was given, Runtime.content is left as Runtime.YieldBlock leaves it (only the restore of the entry value, or a store YieldBlock makes as well).",
 			NotDecided:  "equivalence of rendered output between API and syntax for all call histories; ParseInto's per-type conversions.",
 			Assumptions: []string{"custom functions call the API from the goroutine executing the template"},
 			Trusted:     commonTrusted,
@@ -50,6 +50,7 @@ func init() {
 func runC18(c *an.Ctx) {
 	c08paramScope(c, "C18.once")
 	parseIntoPerArgument(c, "C18.args")
+	c18contentAgrees(c)
 	p := c.P
 	info := p.Jet.TypesInfo
 	callsOwn := func(f *an.Fn, callee string) bool { return len(p.CallsIn(f, callee)) > 0 }
